@@ -43,3 +43,6 @@ Fac/GaussSound.vos Fac/GaussSound.vok Fac/GaussSound.required_vos: Fac/GaussSoun
 Fac/Basis.vo Fac/Basis.glob Fac/Basis.v.beautified Fac/Basis.required_vo: Fac/Basis.v Fac/Gauss.vo LP/OptTest.vo
 Fac/Basis.vio: Fac/Basis.v Fac/Gauss.vio LP/OptTest.vio
 Fac/Basis.vos Fac/Basis.vok Fac/Basis.required_vos: Fac/Basis.v Fac/Gauss.vos LP/OptTest.vos
+Fac/BasisSound.vo Fac/BasisSound.glob Fac/BasisSound.v.beautified Fac/BasisSound.required_vo: Fac/BasisSound.v Fac/Basis.vo Fac/GaussSound.vo LP/OptTestSound.vo
+Fac/BasisSound.vio: Fac/BasisSound.v Fac/Basis.vio Fac/GaussSound.vio LP/OptTestSound.vio
+Fac/BasisSound.vos Fac/BasisSound.vok Fac/BasisSound.required_vos: Fac/BasisSound.v Fac/Basis.vos Fac/GaussSound.vos LP/OptTestSound.vos
